@@ -1384,6 +1384,31 @@ def _walk(o, path):
     return cur
 
 
+STALE_OBSERVABLES = ("parameters", "sources.values", "total_error", "points.model", "cost", "results.stored", "second-cycle.document")
+
+
+def evaluated_first_round_trips(h, obs, wit):
+    """explain-check for the stale-parametric-model mechanism (silent: nothing is counted)"""
+    tmp = getattr(h, "tmp", None)
+    if tmp is None:
+        return False
+    try:
+        fit = build_staged_fit(None, h.case, count_ops=False)
+        fit.get_result_dict()  # evaluates cost -> model -> hands the current parameter values to the parametric model
+        p1, p2 = os.path.join(tmp, "explain-1.yml"), os.path.join(tmp, "explain-2.yml")
+        fit.to_file(p1)
+        re = type(fit).from_file(p1)
+        for a, b in zip(obs_fit(fit), obs_fit(re)):
+            if diff(plain(a[1]), plain(b[1]), a[2], a[3] if len(a) > 3 else 0.0) is not None:
+                return False
+            if obs != "second-cycle.document" and a[0] == obs and (a[4] if len(a) > 4 else "") == wit.get("where", ""):
+                return True  # everything up to and including the observable that diverged now agrees
+        re.to_file(p2)
+        return diff(parse_doc(p1), parse_doc(p2), RT, 0.0, "", doc_tol) is None
+    except Exception:
+        return False
+
+
 def classify(h, obs, wit):
     try:
         return _classify(h, obs, wit)
@@ -1441,17 +1466,12 @@ def _classify(h, obs, wit):
                     return "C09/relative-simple-constraint-written-with-absolute-uncertainty"
             if a != b:
                 break
-    # -- parameter values set but not yet evaluated: the parametric model still holds the previous values when it is written
-    if kind == "fit" and case["ftype"] != "custom" and case["stage"] == "unfitted" and obs == "parameters" and path.startswith("values") and wit.get("objects"):
-        eo, go = wit["objects"]
+    # -- parameter values set but not yet evaluated: the parametric model still holds the previous values when it is written.
+    #    Decided by repair-and-recheck: the same case, evaluated once before it is saved, round-trips without any difference.
+    if kind == "fit" and case["ftype"] != "custom" and case["stage"] == "unfitted" and obs in STALE_OBSERVABLES:
         setters = [op for op in case["ops"] if op[0] == "set_parameter_values" or (op[0] == "fix_parameter" and len(op) > 2 and op[2] is not None)]
-        dflt = case["spec"]["model"].get("defaults") if not case.get("library") else [1.0] * len(eo["values"])
-        if setters and eo["names"] == go["names"] and dflt is not None and len(dflt) == len(go["values"]):
-            touched = set()
-            for op in setters:
-                touched.update(op[1] if op[0] == "set_parameter_values" else [op[1]])
-            if all(g == e or (n in touched and g == float(d)) for g, e, d, n in zip(go["values"], eo["values"], dflt, eo["names"])):
-                return "C09/fit-saved-before-evaluation-writes-stale-model-parameters"
+        if setters and evaluated_first_round_trips(h, obs, wit):
+            return "C09/fit-saved-before-evaluation-writes-stale-parametric-model"
     # -- CustomFit: parameter values come back as the defaults of the cost function
     if kind == "fit" and case["ftype"] == "custom" and path.startswith("values") and obs in ("parameters", "results.stored"):
         eo, go = wit.get("objects", (None, None))
@@ -1782,6 +1802,7 @@ def run_case(ctx, case, tmp):
         for it in items:
             ctx.add_to_set(name, it)
     h = History(ctx, inner, feats)
+    h.tmp = tmp
     tag = "obj"
     if kind == "container":
         for s in case.get("sources", []):
@@ -1807,7 +1828,12 @@ def run_case(ctx, case, tmp):
     elif kind == "fit":
         run_fit(ctx, h, case, tmp, tag)
     elif kind == "wwr":
-        h = run_wwr(ctx, lambda c: History(ctx, c, features(c)), case, tmp)
+        def factory(c):
+            hh = History(ctx, c, features(c))
+            hh.tmp = tmp
+            return hh
+
+        h = run_wwr(ctx, factory, case, tmp)
         if not getattr(h, "first_longer", False):
             return False
     elif kind == "state":
